@@ -7,7 +7,7 @@ EXISTS = f"{V}/evidence/work/C10/c10-exists.txt".encode()
 
 MODULE = "DtailModel.Props.C10"
 # translated packages (tie G) this property's theorems rest on
-GEN_UNITS = ("MaprQuery", "Config", "Decode")
+GEN_UNITS = ("MaprQuery", "Config", "Decode", "Grep")
 GROUPS = ["C10"]
 LOGGER = "none"
 BUDGET = {"quick": 2400, "thorough": 40000}
